@@ -27,10 +27,47 @@ class Transport(StringTransport):
         pass
 
 
+class SlowTransport(Transport):
+    """a socket whose peer reads slowly: written bytes wait in the send buffer until the peer takes them;
+    loseConnection() closes after the buffer has drained, abortConnection() throws the buffer away"""
+
+    def __init__(self):
+        super().__init__()
+        self.pending = b""
+        self.delivered = b""
+        self.closed = None
+
+    def write(self, data):
+        if self.closed is None:
+            self.pending += bytes(data)
+
+    def writeSequence(self, seq):
+        for d in seq:
+            self.write(d)
+
+    def drain(self, n=None):
+        n = len(self.pending) if n is None else n
+        self.delivered += self.pending[:n]
+        self.pending = self.pending[n:]
+
+    def loseConnection(self):
+        if self.closed is None:
+            self.closed = "closed"
+            self.drain()
+
+    def abortConnection(self):
+        if self.closed is None:
+            self.closed = "aborted"
+            self.pending = b""
+
+    def value(self):
+        return self.delivered + self.pending
+
+
 class Proxy:
     """viewer <-> VNCLoggingServerProxy <-> VNCLoggingClientProxy <-> server"""
 
-    def __init__(self, password_required=False, t0_ticks=0, factory=None, clock=None):
+    def __init__(self, password_required=False, t0_ticks=0, factory=None, clock=None, transport_cls=None):
         self.clock = clock or FakeTime()
         self.base = 1000.0
         self.set_ticks(t0_ticks)
@@ -51,11 +88,11 @@ class Proxy:
             self.factory = factory
         self.server_side = self.factory.buildProtocol(None)      # VNCLoggingServerProxy (talks to the viewer)
         self.server_side.reactor = MemoryReactor()
-        self.viewer_transport = Transport()
+        self.viewer_transport = (transport_cls or Transport)()
         self.server_side.makeConnection(self.viewer_transport)
         host, port, cfactory = self.server_side.reactor.tcpClients[0][:3]
         self.client_side = cfactory.buildProtocol(None)          # VNCLoggingClientProxy (talks to the server)
-        self.server_transport = Transport()
+        self.server_transport = (transport_cls or Transport)()
         self.client_side.makeConnection(self.server_transport)
         self.error = None
 
@@ -103,7 +140,7 @@ class Proxy:
 # ---- viewer-side message builders (RFC 6143 §7.5), independent of the proxy
 
 def key_event(down, keysym):
-    return struct.pack("!BBxxI", 4, 1 if down else 0, keysym)
+    return struct.pack("!BBxxI", 4, int(down) & 0xFF, keysym)       # the down-flag is a byte: non-zero = pressed
 
 
 def pointer_event(mask, x, y):
